@@ -705,6 +705,12 @@ def apply_proj(t, p, body=None, st=()):
             i = p["i"]
             if i < len(t[2]):
                 return t[2][i]
+        if t[0] == "var" and len(t) > 2 and isinstance(t[2], tuple) and t[2] and t[2][0] == "closure":
+            # the captures of a closure value are fixed when it is built (calling an FnMut borrows it mutably, but the
+            # captured references themselves are not re-seated by safe code)
+            i = p["i"]
+            if i < len(t[2][2]):
+                return t[2][2][i]
         if t[0] == "phi":
             return mkphi(apply_proj(x, p, body, st) for x in t[1])
         return ("field", t, name)
